@@ -148,6 +148,19 @@ def check_case(ctx, case):
         ctx.cleanup_case(d)
         return res.violate('common', 'bkli result is not the maximal common base of its inputs', expect=want, got=R, **detail)
     res.ev('intersections_agreed')
+    if case.get('i', 0) % 5 == 2 and rf in ('json', 'yaml', 'toml'):
+        # -o onto an existing, longer file: the file must hold exactly what stdout gets (format from the extension)
+        oname = 'common-out.' + rf
+        with open(os.path.join(d, oname), 'w') as f:
+            f.write({'json': '{"old": 1}' + ' ' * 4000 + '\n', 'toml': 'old = 1\n' + '# pad\n' * 600}.get(rf, 'old: 1\n' + '# pad\n' * 600))
+        ro = cli([ctx.bin('bkli'), '-o', oname] + names, cwd=d)
+        res.execs += 1
+        held = open(os.path.join(d, oname), 'rb').read() if ro.rc == 0 else None
+        if held != r.out or ro.out:
+            ctx.cleanup_case(d)
+            return res.violate('common', 'bkli -o onto an existing file does not leave exactly the result in it (rc=%s)' % ro.rc, stdout_version=r.out.decode('utf-8', 'replace'),
+                               file=(held or b'').decode('utf-8', 'replace')[:500], **detail)
+        res.ev('output_file_replaced')
     # any argument order must satisfy the same description
     if n > 2 or case.get('i', 0) % 3 == 0:
         import random
